@@ -2059,12 +2059,19 @@ class VM:
                     pos = 0
                     capture_count = regex_internal._capture_count
 
-                    while pos <= len(s):
+                    # A separator is a match that starts inside the string and
+                    # does not end where the previous piece ended (an empty
+                    # match right there separates nothing)
+                    while pos < len(s):
                         # Create fresh regex VM for each search to avoid lastIndex issues
                         vm_regex = regex_internal._create_vm()
                         result = vm_regex.search(s, pos)
-                        if result is None:
+                        if result is None or result.index >= len(s):
                             break
+                        match_end = result.index + len(result[0])
+                        if match_end == last_end:
+                            pos = result.index + 1
+                            continue
 
                         # Add the part before this match
                         parts.append(s[last_end : result.index])
@@ -2076,14 +2083,15 @@ class VM:
                                 group_val if group_val is not None else UNDEFINED
                             )
 
-                        # Move past the match
-                        match_len = len(result[0]) if result[0] else 0
-                        last_end = result.index + match_len
-                        # Advance position (at least by 1 to avoid infinite loop on zero-width)
-                        pos = last_end if match_len > 0 else result.index + 1
+                        # Move past the match (an empty match matches again at the
+                        # same place, so the next search starts one further on)
+                        last_end = match_end
+                        pos = last_end if result[0] else result.index + 1
 
-                    # Add remainder after last match
-                    parts.append(s[last_end:])
+                    if s or regex_internal._create_vm().match(s, 0) is None:
+                        # Add remainder after last match (an empty string splits
+                        # into nothing if the separator matches it)
+                        parts.append(s[last_end:])
                 except RegexTimeoutError:
                     raise TimeLimitError("Regex execution timeout")
                 except RegexStackOverflow:
